@@ -216,11 +216,25 @@ def parts_line(o) -> str:
 
 
 def real(f: list[str]) -> str:
+    """The result line of one operation.  Whatever the library raises where the harness did not expect
+    an exception (e.g. while building an object with validation off) is the outcome of the operation,
+    not an error of the harness."""
+    try:
+        return _real(f)
+    except exceptions.SchwiftyException as e:
+        return "err " + type(e).__name__
+    except (ValueError, LookupError, TypeError, AssertionError, AttributeError, RecursionError) as e:
+        if f and f[0] in ("seq",) or (f and f[0].startswith("reg.")):
+            raise
+        return "crash " + CRASH.get(type(e).__name__, "Other")
+
+
+def _real(f: list[str]) -> str:
     op = f[0]
     if "@" in op:
         base, _carrier[0] = op.split("@", 1)
         try:
-            return real([base] + list(f[1:]))
+            return _real([base] + list(f[1:]))
         finally:
             _carrier[0] = None
     if op == "reg.synthetic":          # reg.reset on the model side; start collecting entries
